@@ -146,7 +146,9 @@ class Rig:
                 self.tx.sendto(self.sentinel_bytes(name), ("127.0.0.1", port))
                 deadline = time.monotonic() + (1.0 if attempt == 0 else 0.3)
                 i = 0
-                while name not in self.sentinels_seen and time.monotonic() < deadline:
+                # give up only after the wall-clock deadline AND a generous number of loop turns: a process that was
+                # descheduled past the deadline has not given the bridge a chance to read yet
+                while name not in self.sentinels_seen and (time.monotonic() < deadline or i < 3000):
                     i += 1
                     await asyncio.sleep(0 if i < 3000 else 0.001)
                 if name in self.sentinels_seen:
